@@ -213,6 +213,19 @@ CHECKS = {
         "distance >= 1e-3 from the wire for the segment obligation.",
         design="3/C01",
     ),
+    "C20": dict(
+        engine="E1",
+        technique="CrossHair (z3) symbolic execution of the real update_nested_dict / magic_to_dict / linearize_dict / MagicProperties.update / get_style with "
+        "integer selectors choosing keys, values, notation and which of the sources of a leaf are set; compared with the documented semantics",
+        text="Bounded symbolic model checking of the dictionary/precedence mechanism: update semantics (last wins, same_keys_only, replace_None_only, "
+        "input not modified), magic<->nested<->flat round trips, equivalence of the three notations, last assignment wins, leaf precedence "
+        "show-kwarg > object > family default / base default for three representative numeric leaves, and that resolving a style changes neither "
+        "the object's style nor the defaults; out-of-range values are rejected.",
+        note="PARTLY APPLICABLE: <=3 keys from a 4-name alphabet, depth <=3, value lists of 3-4 entries; the sweep over all leaves/families, aliases "
+        "(e.g. magnetization.size), colour/linestyle validators, defaults.reset() for every leaf and independence of copies are NOT decided. "
+        "Conditions CrossHair cannot finish within the per-condition budget are listed as inconclusive.",
+        design="3/C20",
+    ),
 }
 
 NOT_APPLICABLE = {
